@@ -3,14 +3,15 @@ import TdModel.Lemmas.C24Prov
 namespace TdModel.Rpc
 
 set_option maxHeartbeats 4000000 in
-theorem prov_loop {cfg : Cfg} {s s' : State} {i : Nat} {b : LoopBr} (hg : cfg.guard = true) (h : Prov s) (hi : Inv s)
+theorem prov_loop {cfg : Cfg} {s s' : State} {i : Nat} {b : LoopBr} (hg : cfg.std = true) (h : Prov s) (hi : Inv s)
     (hs : stepLoop cfg s i b = some s') : Prov s' := by
   unfold stepLoop at hs
+  std_norm hg at hs
   split at hs
   · simp at hs
   · split at hs
     · simp at hs
-    · dsimp only at hs
+    · try dsimp only at hs
       split at hs
       all_goals (split at hs <;> try (simp at hs))
       all_goals (try (split at hs <;> try (simp at hs)))
@@ -18,9 +19,10 @@ theorem prov_loop {cfg : Cfg} {s s' : State} {i : Nat} {b : LoopBr} (hg : cfg.gu
       all_goals prov_close hg
 
 set_option maxHeartbeats 4000000 in
-theorem prov_wait {cfg : Cfg} {s s' : State} {i : Nat} {b : WaitBr} (hg : cfg.guard = true) (h : Prov s) (hi : Inv s)
+theorem prov_wait {cfg : Cfg} {s s' : State} {i : Nat} {b : WaitBr} (hg : cfg.std = true) (h : Prov s) (hi : Inv s)
     (hs : stepWait cfg s i b = some s') : Prov s' := by
   unfold stepWait at hs
+  std_norm hg at hs
   split at hs
   · simp at hs
   · split at hs
@@ -32,9 +34,10 @@ theorem prov_wait {cfg : Cfg} {s s' : State} {i : Nat} {b : WaitBr} (hg : cfg.gu
       all_goals prov_close hg
 
 set_option maxHeartbeats 4000000 in
-theorem prov_dret {cfg : Cfg} {s s' : State} {i : Nat} {o : Outcome} (hg : cfg.guard = true) (h : Prov s) (hi : Inv s)
+theorem prov_dret {cfg : Cfg} {s s' : State} {i : Nat} {o : Outcome} (hg : cfg.std = true) (h : Prov s) (hi : Inv s)
     (hs : stepDret cfg s i o = some s') : Prov s' := by
   unfold stepDret at hs
+  std_norm hg at hs
   split at hs
   · simp at hs
   · split at hs <;> simp at hs
@@ -42,12 +45,14 @@ theorem prov_dret {cfg : Cfg} {s s' : State} {i : Nat} {o : Outcome} (hg : cfg.g
     prov_close hg
 
 set_option maxHeartbeats 4000000 in
-theorem prov_gpass {s s' : State} {i : Nat} (h : Prov s) (hi : Inv s) (hs : stepGpass s i = some s') : Prov s' := by
+theorem prov_gpass {cfg : Cfg} {s s' : State} {i : Nat} (hg : cfg.std = true) (h : Prov s) (hi : Inv s)
+    (hs : stepGpass cfg s i = some s') : Prov s' := by
   unfold stepGpass at hs
+  std_norm hg at hs
   split at hs
   · simp at hs
   · split at hs <;> simp at hs
     subst hs
-    prov_close True.intro
+    prov_close hg
 
 end TdModel.Rpc
